@@ -63,7 +63,7 @@ theorem walkX_ok {sg : Bool} {ex : Nat → Exam} {pm : PpidMap} (h : ∀ p ∈ p
         rw [filterX_ok (fun p hp => h p (kidsOf_sub_keys hp))]
         exact ih _ _ _
 
-theorem ppidMapX_skip (w : XWorld) : ∀ L : List Nat, ppidMapX true w L = some (linksOf L w) := by
+theorem ppidMapX_skip (w : XWorld) : ∀ L : List Nat, ppidMapX true true w L = .ok (linksOf L w) := by
   intro L
   induction L with
   | nil => rfl
@@ -140,14 +140,14 @@ theorem raiseX_denied {w : XWorld} {me : Caller} (h : w me.pid = .denied) :
 /-- **refinement**: with the skip in `ppid_map()`, a caller whose own stat is readable, and no
     unreadable stat among the mapped PIDs when they are examined, `children()` in the rich world is
     `children()` of Model/C05.lean over the visible links -/
-theorem childrenX_refines (c : XCfg) (hskip : c.mapSkipsDenied = true) (me : Caller) (recursive : Bool)
+theorem childrenX_refines (c : XCfg) (hskip : c.mapSkipsDenied = true ∧ c.mapSkipsGone = true) (me : Caller) (recursive : Bool)
     (L : List Nat) (w0 wl : XWorld) (hme : w0 me.pid ≠ .denied)
     (hwl : ∀ p ∈ (linksOf L w0).map (·.1), wl p ≠ .denied) :
     childrenX c me recursive L w0 wl
       = ((children c.base me recursive (lookOfW w0) (linksOf L w0) (lookOfW wl)).1,
          XOut.ofOut (children c.base me recursive (lookOfW w0) (linksOf L w0) (lookOfW wl)).2) := by
   unfold childrenX children
-  rw [hskip, ppidMapX_skip, raiseX_eq _ hme]
+  rw [hskip.1, hskip.2, ppidMapX_skip, raiseX_eq _ hme]
   have hkeys : ∀ (op : Cmp) (p : Nat), p ∈ (usedMap c.base me.pid (linksOf L w0)).map (·.1) →
       examOf op me.ctime wl p ≠ .raise := by
     intro op p hp
